@@ -15,6 +15,7 @@ From Coq Require Import QArith ZArith List Bool Arith.
 Import ListNotations.
 Require Import Plinio.Base.Qx Plinio.Model.Masks Plinio.Model.PitCost Plinio.Proofs.PitCost.
 Require Import Plinio.Model.PitCostNet Plinio.Proofs.PitCostNet.
+Require Import Plinio.Gen.PitCostGen Plinio.Proofs.PitCostGen.
 Local Open Scope nat_scope.
 
 (* ---- the calculator hands the cost function the number of alive bits of the mask export slices with *)
@@ -181,6 +182,115 @@ Example C04_net_example :
     [(3, 2, 1, [3; 3]); (2, 2, 1, [3; 3]); (2, 2, 2, [3; 3]); (3, 2, 1, [3; 3]); (7, 2, 1, [3; 3]); (8, 2, 1, [])] /\ qpair (pit_cost params_spec (tr_net exn_net exn_xd) exn_rms true true) = (314, 1)%Z /\ numel_net true (x_net exn_net exn_xd exn_rms) = 314 /\ qpair (pit_cost ops_spec (tr_net exn_net exn_xd) exn_rms true false) = (1050, 1)%Z /\ qpair (plain_cost ops_spec false (x_net exn_net exn_xd exn_rms)) = (1050, 1)%Z.
 Proof. vm_compute. repeat split; repeat constructor. Qed.
 
+(* ================================================================ second tie, by translation: the model GENERATED from the source
+   Gen/PitCostGen.v is written by translator/pitcost2coq.py from plinio/methods/pit/pit.py (PIT._get_single_cost,
+   _single_cost_fn_map, the cost_specification setter, __init__), plinio/methods/dnas_base/dnas.py (get_cost, cost,
+   _create_cost_fn_map) and plinio/methods/pit/nn/{conv1d,conv2d,linear}.py (get_modified_vars, out_features_eff / _opt,
+   in_features_opt, k_eff, kernel_size_opt, _generate_norm_constants, the constructor arguments of export) of the tree under
+   test, statement by statement.  `gen_wrapper net ms spec d full` is the object PIT.__init__ builds (cost = spec,
+   discrete_cost = d, full_cost = full) around the leaf modules (net, ms); `gen_cost1 net ms spec d full` is its `.cost`.
+   Equalities are == of rationals and ask `spec_proper`: the cost function gives equal costs on equal rationals (3/3 and 1),
+   which every function of floats does; the five built-in ones are proper (C04_builtin_specs). *)
+
+(* PIT(...).cost for a single specification, and get_cost(name) for a dictionary with distinct names, ARE the hand model;
+   no assert fails, no key is missing, no division by zero on the way *)
+Theorem C04_generated_cost_is_model : forall spec net ms d full, spec_proper spec ->
+  (gen_cost1 net ms spec d full == pit_cost spec net ms d full)%Q /\ dnas_cost_ok (gen_wrapper net ms (GOne spec) d full) = true.
+Proof. exact gen_cost1_is_model. Qed.
+
+Theorem C04_generated_dict_cost_is_model : forall dct n spec net ms d full,
+  NoDup (map fst dct) -> In (n, spec) dct -> spec_proper spec ->
+  let self := gen_wrapper net ms (GDict dct) d full in
+  (dnas_get_cost_gen self (Some n) == pit_cost spec net ms d full)%Q /\ dnas_get_cost_ok self (Some n) = true.
+Proof. exact gen_dict_cost_is_model. Qed.
+
+(* the specification re-assigned on ANY wrapper state (whatever it held before): the maps are rebuilt for the new one *)
+Theorem C04_generated_respecified : forall self spec, spec_proper spec ->
+  let self' := pit_set_cost_specification_gen self (GOne spec) in
+  (dnas_cost_gen self' == pit_cost spec (p_net self) (p_ms self) (p_disc self) (p_full self))%Q /\ dnas_cost_ok self' = true.
+Proof. exact gen_respecified. Qed.
+
+(* full_cost / discrete_cost switched after construction *)
+Theorem C04_generated_flags_after_construction : forall spec net ms d full d' full', spec_proper spec ->
+  let self := with_disc (with_full (gen_wrapper net ms (GOne spec) d full) full') d' in
+  (dnas_cost_gen self == pit_cost spec net ms d' full')%Q /\ dnas_cost_ok self = true.
+Proof. exact gen_flags_after_construction. Qed.
+
+(* which function costs which layer: the one registered for its type and for conv_dw_constraint on its STATIC sizes *)
+Theorem C04_generated_cost_fn_of_a_layer : forall self c i lm, In (i, lm) (p_objs self) -> l_sites (fst lm) <> [] ->
+  pit__single_cost_fn_map_gen self c i = Some (s_fn c (l_kind (fst lm)) (static_dw (fst lm))).
+Proof. exact cost_fn_of_a_layer. Qed.
+
+(* get_modified_vars() + shapes_dict(node) is the hyper-parameter record of the model *)
+Theorem C04_generated_hyperparameters : forall E l m site,
+  hp_eq (shapes_update (layer_get_modified_vars E (l, m)) site) (pit_hp (e_ms E) (e_disc E) l m site).
+Proof. exact get_modified_vars_is_pit_hp. Qed.
+
+(* what export hands to the constructors of the plain layers is export_layer *)
+Theorem C04_generated_export : forall net ms, export_net_gen net ms = export_net net ms.
+Proof. exact export_net_gen_is_export_net. Qed.
+
+(* the normalisation constants of PITConv1d are the model's, and computing them never divides by zero *)
+Theorem C04_generated_norm_constants : forall E o,
+  conv1d__generate_norm_constants_gen E o = (beta_norm (ksize (fst o)), gamma_norm (ksize (fst o))) /\
+  conv1d__generate_norm_constants_ok E o = true.
+Proof. exact norm_constants_model_and_defined. Qed.
+
+(* ---- the sentences of the property, on the generated model *)
+Theorem C04_generated_cost_discrete_eq_export : forall spec net ms full,
+  spec_proper spec -> groups_blind spec -> dw_consistent net ms -> no_degenerate net ms ->
+  (gen_cost1 net ms spec true full == plain_cost spec full (export_net_gen net ms))%Q.
+Proof. exact gen_cost_discrete_eq_export. Qed.
+
+Theorem C04_generated_cost_discrete_eq_export_insensitive : forall spec net ms full,
+  spec_proper spec -> groups_blind spec -> dw_insensitive spec -> wf_net net -> dw_consistent net ms ->
+  (gen_cost1 net ms spec true full == plain_cost spec full (export_net_gen net ms))%Q.
+Proof. exact gen_cost_discrete_eq_export_insensitive. Qed.
+
+(* the open finding is a behaviour of the code as it is: gap8_latency, a full convolution pruned to 1 -> 1 *)
+Theorem C04_generated_dw_degenerate_refuted : exists net ms, wf_net net /\ dw_consistent net ms /\ masks_nonempty net ms /\
+  ~ (gen_cost1 net ms gap8_spec true false == plain_cost gap8_spec false (export_net_gen net ms))%Q.
+Proof. exact gen_dw_degenerate_refuted. Qed.
+
+Theorem C04_generated_params_is_numel : forall net ms full, wf_net net -> dw_consistent net ms -> masks_nonempty net ms ->
+  (gen_cost1 net ms params_spec true full == nq (numel_net full (export_net_gen net ms)))%Q.
+Proof. exact gen_params_is_numel. Qed.
+
+Theorem C04_generated_cost_open_eq_original : forall spec net ms d full,
+  spec_proper spec -> Forall (wf_open net) net -> Forall2 open_mask net ms ->
+  (gen_cost1 net ms spec d full == plain_cost spec full net)%Q.
+Proof. exact gen_cost_open_eq_original. Qed.
+
+Theorem C04_generated_k_eff_open : forall E l m K, 1 <= K -> ksize l = K -> m_beta m = repeat 1%Q K -> m_gamma m = repeat 1%Q (gamma_len K) ->
+  (conv1d_k_eff_gen E (l, m) == nq K)%Q /\ conv1d_kernel_size_opt_gen E (l, m) = [K].
+Proof. exact gen_k_eff_open. Qed.
+
+Theorem C04_generated_full_cost_adds_fixed : forall spec net ms d, spec_proper spec -> length ms = length net ->
+  (gen_cost1 net ms spec d true == gen_cost1 net ms spec d false + fixed_cost spec net)%Q.
+Proof. exact gen_full_cost_adds_fixed. Qed.
+
+(* a network of one layer l (masks m, the other modules' masks ms for its calculator) *)
+Theorem C04_generated_shared_counts_once : forall spec ms d l m s rest, spec_proper spec -> s_shared spec = true -> l_sites l = s :: rest ->
+  (gen_cost1 [l] (m :: ms) spec d true == site_cost spec (m :: ms) d l m s)%Q.
+Proof. exact gen_shared_counts_once. Qed.
+
+Theorem C04_generated_per_invocation_counts_each : forall spec ms d l m, spec_proper spec -> s_shared spec = false ->
+  (gen_cost1 [l] (m :: ms) spec d true == qsum (map (site_cost spec (m :: ms) d l m) (l_sites l)))%Q.
+Proof. exact gen_per_invocation_counts_each. Qed.
+
+Theorem C04_generated_invoked_twice : forall spec ms d l m s, spec_proper spec -> l_sites l = [s; s] ->
+  (gen_cost1 [l] (m :: ms) spec d true == (if s_shared spec then 1 else 2) * site_cost spec (m :: ms) d l m s)%Q.
+Proof. exact gen_invoked_twice. Qed.
+
+(* non-vacuity: the generated model on the example network *)
+Example C04_generated_example :
+  qpair (gen_cost1 ex_net ex_ms params_spec true false) = (44, 1)%Z /\ qpair (gen_cost1 ex_net ex_ms ops_spec true false) = (362, 1)%Z /\
+  qpair (gen_costd ex_net ex_ms 2 true false) = (362, 1)%Z /\
+  map lsize (export_net_gen ex_net ex_ms) = [(2, 3, 1, [2]); (3, 3, 3, [3]); (9, 2, 1, [])] /\
+  qpair (gen_cost1 ex_net (map open_of ex_net) ops_spec false false) = qpair (plain_cost ops_spec false ex_net) /\
+  snd (run_cost_gen ex_net ex_ms false) = true.
+Proof. vm_compute. repeat split. Qed.
+
 Print Assumptions C04_in_features_is_alive_count.
 Print Assumptions C04_hyperparameters_are_exported.
 Print Assumptions C04_cost_discrete_eq_export.
@@ -200,3 +310,21 @@ Print Assumptions C04_net_dw_consistent_derived.
 Print Assumptions C04_net_export_widths_are_C09.
 Print Assumptions C04_net_cost_discrete_eq_export.
 Print Assumptions C04_net_params_is_numel.
+Print Assumptions C04_generated_cost_is_model.
+Print Assumptions C04_generated_dict_cost_is_model.
+Print Assumptions C04_generated_respecified.
+Print Assumptions C04_generated_flags_after_construction.
+Print Assumptions C04_generated_cost_fn_of_a_layer.
+Print Assumptions C04_generated_hyperparameters.
+Print Assumptions C04_generated_export.
+Print Assumptions C04_generated_norm_constants.
+Print Assumptions C04_generated_cost_discrete_eq_export.
+Print Assumptions C04_generated_cost_discrete_eq_export_insensitive.
+Print Assumptions C04_generated_dw_degenerate_refuted.
+Print Assumptions C04_generated_params_is_numel.
+Print Assumptions C04_generated_cost_open_eq_original.
+Print Assumptions C04_generated_k_eff_open.
+Print Assumptions C04_generated_full_cost_adds_fixed.
+Print Assumptions C04_generated_shared_counts_once.
+Print Assumptions C04_generated_per_invocation_counts_each.
+Print Assumptions C04_generated_invoked_twice.
